@@ -1561,6 +1561,37 @@ func c18GenHist(r *zzverif.Rng, out *zzverif.Out) *c18Hist {
 	return h
 }
 
+// c18GenLongHist: one sampler, 150 calls on small vocabularies (the length changes now and then, masks come and go).
+func c18GenLongHist(r *zzverif.Rng, out *zzverif.Out) *c18Hist {
+	n := r.Range(3, 24)
+	h := &c18Hist{
+		temp: zzverif.Pick(r, []float32{1, 0.7, 1.3, 0.25}),
+		k:    zzverif.Pick(r, []int{0, 5, 40, max(n-1, 1), 2}),
+		p:    zzverif.Pick(r, []float32{1, 0.9, 0.95, 0.5}),
+		mp:   zzverif.Pick(r, []float32{0, 0.05, 0.2}),
+		seed: r.Range(1, 1<<30),
+	}
+	if r.Chance(1, 4) {
+		h.seed = -1
+	}
+	out.Count("long_histories")
+	for j := 0; j < 150; j++ {
+		if j%17 == 16 {
+			n = r.Range(3, 24)
+		}
+		v := make([]float32, n)
+		for i := range v {
+			v[i] = c18RandFloat(r, -8, 8)
+			if r.Chance(1, 6) {
+				v[i] = c18NegInf
+			}
+		}
+		v[r.Intn(n)] = c18RandFloat(r, -2, 9) // at least one finite logit
+		h.calls = append(h.calls, v)
+	}
+	return h
+}
+
 // c18RunHist: one real Sampler, all calls on it; the generator state is threaded by the model's rule.
 func c18RunHist(out *zzverif.Out, h *c18Hist, fix bool) {
 	if h.seed == -1 {
@@ -1791,6 +1822,11 @@ func TestVerifC18(t *testing.T) {
 	for i := 0; i < n; i++ {
 		r := root.Fork()
 		c18RunHist(out, c18GenHist(r, out), fix)
+	}
+	// long histories: behaviour that depends on HOW MANY calls a sampler has served (a scratch buffer grown once,
+	// a call counter, a re-seed) does not show in 1..8 calls
+	for i := 0; i < zzverif.EnvInt("VERIF_NLONG", 2); i++ {
+		c18RunHist(out, c18GenLongHist(root.Fork(), out), fix)
 	}
 	// empty input, alone and inside a history
 	c18RunHist(out, &c18Hist{temp: 0.8, k: 40, p: 0.9, mp: 0.05, seed: 7, calls: [][]float32{{}}}, fix)
